@@ -119,6 +119,9 @@ def r_node(n, xhtml):
     if k == "cmt":
         return r_cmt(n) + "\n"
     if k == "wrap":
+        if n["tag"] == "cc-revealed":
+            # downlevel-revealed conditional comment (what Outlook/Word HTML is full of): two comments with VISIBLE content between them
+            return "<!--[if !mso]><!-->" + "".join(r_node(c, xhtml) for c in n["nodes"]) + "<!--<![endif]-->\n"
         return f"<{n['tag']}>" + "".join(r_node(c, xhtml) for c in n["nodes"]) + f"</{n['tag']}>\n"
     raise ValueError(k)
 
@@ -296,7 +299,7 @@ def docs(draw, max_nodes=7, rich=True):
             return rem()
         if k == "cmt":
             return {"k": "cmt", "form": draw(st.integers(0, 4)), "tok": tok("X")}
-        return {"k": "wrap", "tag": draw(st.sampled_from(["div", "section", "article"])), "nodes": [node(depth + 1) for _ in range(draw(st.integers(1, 3)))]}
+        return {"k": "wrap", "tag": draw(st.sampled_from(["div", "section", "article", "cc-revealed"])), "nodes": [node(depth + 1) for _ in range(draw(st.integers(1, 3)))]}
 
     nodes = [node() for _ in range(draw(st.integers(1, max_nodes)))]
     # make sure something visible follows the last removable element in most documents
